@@ -42,6 +42,7 @@ mod h_bytes;
 mod h_escape;
 mod h_listing;
 mod h_load;
+mod h_e2e;
 
 fn main() {
   let args: Vec<String> = std::env::args().collect();
@@ -64,6 +65,8 @@ fn main() {
     "replay-listing" => h_listing::replay(&opts),
     "load" => h_load::run(&opts),
     "replay-load" => h_load::replay(&opts),
+    "e2e" => h_e2e::run(&opts),
+    "replay-e2e" => h_e2e::replay(&opts),
     other => {
       eprintln!("unknown suite {}", other);
       2
